@@ -253,7 +253,7 @@ func init() {
 		Exec:      c09Exec,
 		Judge:     c09Judge,
 		Describe:  c09Describe,
-		QuickN:    3000,
+		QuickN:    3000*2,
 		ThoroughN: 150000,
 	})
 }
